@@ -1,3 +1,564 @@
+//! C20 - Introspection reports the true number of links and counts every message.
+//!
+//! Leg `links` (E2): BFS over the real `Links` registry with real `UplinkReporter`s (hook
+//! re-export): every sequence of register/insert/remove/remove_remote/remove_lane/remove_all/
+//! count_single/count_broadcast over 2 lanes x 2 remotes; after every operation the reported link
+//! counts and the counted events must equal the reference.
+//! Leg `loom` (E3): loom over the real source text of `agent/reporting/mod.rs`: concurrent
+//! counting threads and a snapshotting thread lose nothing.
+//! Leg `as-reporting` (E1): the real agent+runtime with `NodeReporting`, C04-style scripts with
+//! faults; at quiescence the reported counts equal what the remotes observed.
+
+#[allow(dead_code, unused_imports, clippy::all)]
+mod rep {
+    include!(concat!(env!("OUT_DIR"), "/reporting_loom.rs"));
+}
+
+use asys::grid::{replay as as_replay, run_grid, GridSpec};
+use asys::scripts::*;
+use asys::world::{set_checker, Cfg, FrameKind, Mode, Observation, Step};
+use serde_json::json;
+use std::collections::{BTreeMap, BTreeSet};
+use std::sync::atomic::{AtomicU64, Ordering as StdOrdering};
+use std::time::Instant;
+use swimos_runtime::agent::reporting::{UplinkReportReader, UplinkReporter};
+use swimos_runtime::verif_hooks::Links;
+use uuid::Uuid;
+use vcommon::space::bfs_classified;
+use vcommon::{Ctx, Leg};
+
+// ------------------------------------------------------------------------------------------
+// leg links
+// ------------------------------------------------------------------------------------------
+
+#[derive(Clone, Debug, PartialEq, Eq, Hash, serde::Serialize, serde::Deserialize)]
+enum Op {
+    Register(u64),
+    Insert(u64, u8),
+    Remove(u64, u8),
+    RemoveRemote(u8),
+    RemoveLane(u64),
+    RemoveAll,
+    CountSingle(u64),
+    CountBroadcast(u64),
+}
+
+const LANES: [u64; 2] = [1, 2];
+const REMOTES: [u8; 2] = [0, 1];
+
+fn rid(r: u8) -> Uuid {
+    Uuid::from_u128(500 + r as u128)
+}
+
+struct Sim {
+    links: Links,
+    agg: UplinkReportReader,
+    readers: BTreeMap<u64, UplinkReportReader>,
+    // reference
+    pairs: BTreeSet<(u64, u8)>,
+    registered: BTreeSet<u64>,
+    removed_lanes: BTreeSet<u64>,
+    ever_linked: BTreeSet<u64>,
+}
+
+impl Sim {
+    fn new() -> Sim {
+        let agg = UplinkReporter::default();
+        let reader = agg.reader();
+        Sim {
+            links: Links::new(Some(agg)),
+            agg: reader,
+            readers: BTreeMap::new(),
+            pairs: BTreeSet::new(),
+            registered: BTreeSet::new(),
+            removed_lanes: BTreeSet::new(),
+            ever_linked: BTreeSet::new(),
+        }
+    }
+
+    fn enabled(&self) -> Vec<Op> {
+        let mut v = vec![];
+        for l in LANES {
+            // a lane is registered (with its reporter) before it can be linked, once
+            if !self.registered.contains(&l) && !self.ever_linked.contains(&l) && !self.removed_lanes.contains(&l) {
+                v.push(Op::Register(l));
+            }
+        }
+        for l in LANES {
+            if self.removed_lanes.contains(&l) || !self.registered.contains(&l) {
+                continue;
+            }
+            for r in REMOTES {
+                v.push(Op::Insert(l, r));
+                v.push(Op::Remove(l, r));
+            }
+        }
+        for r in REMOTES {
+            v.push(Op::RemoveRemote(r));
+        }
+        for l in LANES {
+            if !self.removed_lanes.contains(&l) && self.registered.contains(&l) {
+                v.push(Op::RemoveLane(l));
+                v.push(Op::CountSingle(l));
+                v.push(Op::CountBroadcast(l));
+            }
+        }
+        v.push(Op::RemoveAll);
+        v
+    }
+
+    fn apply(&mut self, op: &Op) -> Result<(), String> {
+        let mut expect_lane_events: BTreeMap<u64, u64> = BTreeMap::new();
+        let mut expect_agg_events = 0u64;
+        match op {
+            Op::Register(l) => {
+                let rep = UplinkReporter::default();
+                self.readers.insert(*l, rep.reader());
+                self.links.register_reporter(*l, rep);
+                self.registered.insert(*l);
+            }
+            Op::Insert(l, r) => {
+                self.links.insert(*l, rid(*r));
+                self.pairs.insert((*l, *r));
+                self.ever_linked.insert(*l);
+            }
+            Op::Remove(l, r) => {
+                let t = self.links.remove(*l, rid(*r));
+                let had = self.pairs.remove(&(*l, *r));
+                let remote_has_links = self.pairs.iter().any(|(_, x)| x == r);
+                if had && t.schedule_prune == remote_has_links {
+                    return Err(format!("law=prune_iff_no_links: remove({},{}) schedule_prune={} but remote still has links: {}", l, r, t.schedule_prune, remote_has_links));
+                }
+            }
+            Op::RemoveRemote(r) => {
+                self.links.remove_remote(rid(*r));
+                self.pairs.retain(|(_, x)| x != r);
+            }
+            Op::RemoveLane(l) => {
+                let got: BTreeSet<Uuid> = self.links.remove_lane(*l).map(|t| t.remote_id).collect();
+                let want: BTreeSet<Uuid> = self.pairs.iter().filter(|(x, _)| x == l).map(|(_, r)| rid(*r)).collect();
+                if got != want {
+                    return Err(format!("law=remove_lane_reports_its_links: remove_lane({}) yielded {:?}, linked were {:?}", l, got, want));
+                }
+                self.pairs.retain(|(x, _)| x != l);
+                self.removed_lanes.insert(*l);
+            }
+            Op::RemoveAll => {
+                let got: BTreeSet<(u64, Uuid)> = self.links.remove_all_links().collect();
+                let want: BTreeSet<(u64, Uuid)> = self.pairs.iter().map(|(l, r)| (*l, rid(*r))).collect();
+                if got != want {
+                    return Err(format!("law=remove_all_reports_every_link: remove_all_links yielded {:?}, linked were {:?}", got, want));
+                }
+                self.pairs.clear();
+            }
+            Op::CountSingle(l) => {
+                self.links.count_single(*l);
+                // one event sent to one link of a lane that reports
+                if self.registered.contains(l) {
+                    *expect_lane_events.entry(*l).or_default() += 1;
+                    expect_agg_events += 1;
+                }
+            }
+            Op::CountBroadcast(l) => {
+                self.links.count_broadcast(*l);
+                let n = self.pairs.iter().filter(|(x, _)| x == l).count() as u64;
+                if self.registered.contains(l) {
+                    *expect_lane_events.entry(*l).or_default() += n;
+                    expect_agg_events += n;
+                }
+            }
+        }
+        // observe: every reader, after every operation
+        for l in LANES {
+            if let Some(rd) = self.readers.get(&l) {
+                if self.removed_lanes.contains(&l) {
+                    continue; // the lane is gone; nothing is claimed about its reporter
+                }
+                let want_links = self.pairs.iter().filter(|(x, _)| *x == l).count() as u64;
+                match rd.snapshot() {
+                    Some(s) => {
+                        if s.link_count != want_links {
+                            return Err(format!("law=lane_link_count_true: lane {} reports {} links but {} remotes are linked", l, s.link_count, want_links));
+                        }
+                        let want_ev = expect_lane_events.get(&l).cloned().unwrap_or(0);
+                        if s.event_count != want_ev {
+                            return Err(format!("law=lane_events_counted: lane {} counted {} events for this operation, expected {}", l, s.event_count, want_ev));
+                        }
+                    }
+                    None => {
+                        return Err(format!("law=lane_reporter_alive: the reporter registered for lane {} was dropped although the lane still exists", l));
+                    }
+                }
+            }
+        }
+        match self.agg.snapshot() {
+            Some(s) => {
+                let want = self.pairs.len() as u64;
+                if s.link_count != want {
+                    return Err(format!("law=aggregate_link_count_true: the agent reports {} links but {} exist", s.link_count, want));
+                }
+                if s.event_count != expect_agg_events {
+                    return Err(format!("law=aggregate_events_counted: the agent counted {} events for this operation, expected {}", s.event_count, expect_agg_events));
+                }
+            }
+            None => return Err("law=aggregate_reporter_alive: aggregate reporter dropped".into()),
+        }
+        // structural agreement with the reference through the public queries
+        for l in LANES {
+            for r in REMOTES {
+                if self.links.is_linked(rid(r), l) != self.pairs.contains(&(l, r)) {
+                    return Err(format!("law=is_linked_true: is_linked({},{}) disagrees with the reference", r, l));
+                }
+            }
+        }
+        Ok(())
+    }
+}
+
+fn build(hist: &[Op]) -> Result<Sim, String> {
+    let mut s = Sim::new();
+    for op in hist {
+        s.apply(op)?;
+    }
+    Ok(s)
+}
+
+fn law_of(msg: &str) -> String {
+    msg.split(':').next().unwrap_or(msg).trim().to_string()
+}
+
+fn links_leg(ctx: &Ctx) {
+    let t0 = Instant::now();
+    let depth = if ctx.quick() { 6 } else { 8 };
+    let stats = bfs_classified(
+        Vec::<Op>::new(),
+        |h| build(h).map(|s| s.enabled()).unwrap_or_default(),
+        |h, op| {
+            let mut h2 = h.clone();
+            h2.push(op.clone());
+            build(&h2)?;
+            Ok(h2)
+        },
+        |h| {
+            let s = build(h).expect("valid");
+            format!("{};reg={:?};rm={:?};ever={:?}", s.links.verif_key(), s.registered, s.removed_lanes, s.ever_linked)
+        },
+        |_| Ok(()),
+        law_of,
+        depth,
+        3_000_000,
+        vcommon::ncpu(),
+    );
+    for (path, msg) in &stats.violations {
+        let sig = format!("links: {} minimal_history={}", law_of(msg), path.iter().map(|o| format!("{:?}", o)).collect::<Vec<_>>().join(","));
+        ctx.violation("links", &sig, json!({"ops": path, "explanation": msg, "what": format!("after {:?}: {}", path, msg)}));
+    }
+    ctx.add_leg(Leg {
+        name: "links".into(),
+        engine: "E2-space".into(),
+        states: stats.states,
+        transitions: stats.transitions,
+        evaluations: stats.transitions,
+        distinct_nontrivial: stats.states.saturating_sub(1),
+        rule: "BFS over operation histories on the real Links registry, de-duplicated by Links::verif_key + reference flags; every reporter is read after every operation".into(),
+        samples: stats.sample_paths.iter().map(|p| json!(format!("{:?}", p))).collect(),
+        exhaustive: !stats.capped,
+        bounds: json!({"depth": depth, "depth_reached": stats.depth_reached, "fixpoint": stats.fixpoint, "lanes": 2, "remotes": 2}),
+        wall_s: t0.elapsed().as_secs_f64(),
+    });
+}
+
+// ------------------------------------------------------------------------------------------
+// leg loom
+// ------------------------------------------------------------------------------------------
+
+static LOOM_EXECUTIONS: AtomicU64 = AtomicU64::new(0);
+
+fn loom_scenario(name: &str, bound: Option<usize>) {
+    let mut b = loom::model::Builder::new();
+    b.preemption_bound = bound;
+    let name = name.to_string();
+    b.check(move || {
+        LOOM_EXECUTIONS.fetch_add(1, StdOrdering::Relaxed);
+        let reporter = rep::UplinkReporter::default();
+        let reader = reporter.reader();
+        let (n_threads, incs): (usize, Vec<u64>) = match name.as_str() {
+            "2x2+2snap" => (2, vec![1, 2]),
+            "2x1+2snap-commands" => (2, vec![3]),
+            "3x1+1snap" => (3, vec![1]),
+            _ => (2, vec![1]),
+        };
+        let commands = name.contains("commands");
+        let mut hs = vec![];
+        for _ in 0..n_threads {
+            let r = reporter.clone();
+            let incs = incs.clone();
+            hs.push(loom::thread::spawn(move || {
+                for i in incs {
+                    if commands {
+                        r.count_commands(i);
+                    } else {
+                        r.count_events(i);
+                    }
+                }
+            }));
+        }
+        let snaps = if name.contains("1snap") { 1 } else { 2 };
+        let rd = reader.clone();
+        let snapper = loom::thread::spawn(move || {
+            let mut total = 0u64;
+            for _ in 0..snaps {
+                let s = rd.snapshot().expect("reporter alive");
+                total += if commands { s.command_count } else { s.event_count };
+            }
+            total
+        });
+        for h in hs {
+            h.join().unwrap();
+        }
+        let mut total = snapper.join().unwrap();
+        let last = reader.snapshot().expect("reporter alive");
+        total += if commands { last.command_count } else { last.event_count };
+        let expected: u64 = n_threads as u64 * incs.iter().sum::<u64>();
+        if total != expected {
+            panic!("LAW counts_not_lost: snapshots sum to {} but {} were counted", total, expected);
+        }
+    });
+}
+
+const LOOM_SCENARIOS: [&str; 3] = ["2x2+2snap", "2x1+2snap-commands", "3x1+1snap"];
+
+fn loom_leg(ctx: &Ctx) {
+    let t0 = Instant::now();
+    let exe = std::env::current_exe().unwrap();
+    let thorough = !ctx.quick();
+    let scs: Vec<&str> = LOOM_SCENARIOS.to_vec();
+    let results = vcommon::par_map(&scs, 3, |_, sc| {
+        let o = std::process::Command::new(&exe).arg("--loom-scenario").arg(sc).env("VERIF_TIER", if thorough { "thorough" } else { "quick" }).env_remove("LD_PRELOAD").output();
+        match o {
+            Ok(o) => {
+                let so = String::from_utf8_lossy(&o.stdout).to_string();
+                let se = String::from_utf8_lossy(&o.stderr).to_string();
+                (o.status.code(), so.lines().find_map(|l| l.strip_prefix("LOOM-EXECUTIONS ").and_then(|n| n.trim().parse::<u64>().ok())), se)
+            }
+            Err(e) => (None, None, e.to_string()),
+        }
+    });
+    let mut total = 0u64;
+    let mut samples = vec![];
+    for (sc, (code, n, se)) in scs.iter().zip(results) {
+        match (code, n) {
+            (Some(0), Some(n)) => {
+                total += n;
+                samples.push(json!({"scenario": sc, "executions": n}));
+            }
+            _ => {
+                if let Some(p) = se.find("LAW ") {
+                    let law = se[p + 4..].split(':').next().unwrap_or("?").to_string();
+                    let tail: String = se.lines().rev().take(8).collect::<Vec<_>>().into_iter().rev().collect::<Vec<_>>().join("\n");
+                    ctx.violation("loom", &format!("loom scenario={} law={}", sc, law), json!({"scenario": sc, "explanation": tail, "what": format!("loom {}: {}", sc, law)}));
+                } else {
+                    eprintln!("{}", &se[se.len().saturating_sub(1500)..]);
+                    vcommon::machinery_failure("loom child crashed without a verdict");
+                }
+            }
+        }
+    }
+    ctx.add_leg(Leg {
+        name: "loom-reporting".into(),
+        engine: "E3-loom".into(),
+        states: total,
+        transitions: total,
+        evaluations: total,
+        distinct_nontrivial: scs.len() as u64,
+        rule: "loom executions over the listed scenarios (counting threads x increments + snapshot thread)".into(),
+        samples,
+        exhaustive: true,
+        bounds: json!({"preemption_bound": if thorough { "unbounded" } else { "3" }, "scenarios": scs}),
+        wall_s: t0.elapsed().as_secs_f64(),
+    });
+}
+
+// ------------------------------------------------------------------------------------------
+// leg as-reporting
+// ------------------------------------------------------------------------------------------
+
+fn as_checker(obs: &Observation) -> Vec<(String, String)> {
+    let mut out = vec![];
+    if obs.fault_before_quiescence && obs.remotes.iter().all(|r| r.dropped_at.is_none()) {
+        // a stop/tick deviation: the run is being torn down, nothing is claimed
+        return out;
+    }
+    if obs.truth_at_quiescence.is_none() || obs.reports_at_quiescence.is_empty() {
+        return out;
+    }
+    // links as the remotes observed them at quiescence (all frames drained, so exact)
+    let mut linked: BTreeMap<String, usize> = BTreeMap::new();
+    for r in &obs.remotes {
+        if r.dropped_at.is_some() {
+            continue; // its links are removed when the runtime notices; in flight: no claim
+        }
+        let q = r.frames_at_quiescence.unwrap_or(r.frames.len());
+        let mut state: BTreeMap<String, bool> = BTreeMap::new();
+        for f in r.frames.iter().take(q) {
+            match f.kind {
+                FrameKind::Linked => {
+                    state.insert(f.lane.clone(), true);
+                }
+                FrameKind::Unlinked => {
+                    state.insert(f.lane.clone(), false);
+                }
+                _ => {}
+            }
+        }
+        for (l, on) in state {
+            if on {
+                *linked.entry(l).or_default() += 1;
+            }
+        }
+    }
+    // a dropped remote whose completion promise is resolved has been removed by the runtime;
+    // until then the runtime may not have noticed and only a lower bound is claimed
+    let any_dropped = obs.remotes.iter().any(|r| r.dropped_at.is_some() && !r.completed_at_quiescence);
+    let mut total = 0u64;
+    for (name, snap) in &obs.reports_at_quiescence {
+        if name == "<aggregate>" {
+            continue;
+        }
+        let want = linked.get(name).cloned().unwrap_or(0) as u64;
+        total += want;
+        match snap {
+            Some((lc, _, _)) => {
+                // with a dropped remote the runtime may not have noticed yet: lower bound only
+                if (*lc != want && !any_dropped) || (*lc < want) {
+                    out.push((
+                        "as: reported uplink count of a lane differs from the number of linked remotes".to_string(),
+                        format!("lane {} reports {} links at quiescence, remotes observe {}", name, lc, want),
+                    ));
+                }
+            }
+            None => out.push(("as: lane reporter dropped while the agent runs".to_string(), format!("lane {}", name))),
+        }
+    }
+    if let Some((_, Some((lc, _, _)))) = obs.reports_at_quiescence.iter().find(|(n, _)| n == "<aggregate>") {
+        if (*lc != total && !any_dropped) || *lc < total {
+            out.push((
+                "as: aggregate uplink count differs from the number of links".to_string(),
+                format!("agent reports {} links at quiescence, remotes observe {}", lc, total),
+            ));
+        }
+    }
+    // commands received per lane
+    if !any_dropped {
+        for (name, (_, cmds)) in &obs.report_totals {
+            if name == "<aggregate>" {
+                continue;
+            }
+            let sent: u64 = obs.remotes.iter().map(|r| r.sent.iter().filter(|(_, s)| matches!(s, Step::Cmd(l, _) if l == name)).count() as u64).sum();
+            if *cmds != sent {
+                out.push((
+                    "as: command counter differs from the number of command envelopes delivered".to_string(),
+                    format!("lane {}: counted {} commands, {} envelopes were sent", name, cmds, sent),
+                ));
+            }
+        }
+        // events: every event frame a remote received was counted (counting happens per link at
+        // the push into the uplink, coalescing can only make frames fewer)
+        for (name, (evs, _)) in &obs.report_totals {
+            if name == "<aggregate>" {
+                continue;
+            }
+            let got: u64 = obs.remotes.iter().map(|r| r.frames.iter().take(r.frames_at_quiescence.unwrap_or(r.frames.len())).filter(|f| f.lane == *name && f.kind == FrameKind::Event).count() as u64).sum();
+            if *evs < got {
+                out.push((
+                    "as: fewer events counted than event frames delivered".to_string(),
+                    format!("lane {}: counted {} events, remotes received {} event frames", name, evs, got),
+                ));
+            }
+        }
+    }
+    out
+}
+
+fn as_leg(ctx: &Ctx) {
+    let quick = ctx.quick();
+    let pool: Vec<Vec<Step>> = vec![
+        vec![link("v"), cmd("v", "1"), unlink("v")],
+        vec![sync("v"), cmd("v", "2")],
+        vec![link("v"), link("m"), unlink("v")],
+        vec![sync("m"), act(&["@upd{k:1,v:1}"]), unlink("m")],
+        vec![link("s"), act(&["@push(1)", "@push(2)"])],
+        vec![link("x"), sync("v"), link("v")],
+    ];
+    let mut cfgs = vec![];
+    for (i, a) in pool.iter().enumerate() {
+        for (j, b) in pool.iter().enumerate() {
+            if quick && (i + j) % 2 == 1 {
+                continue;
+            }
+            let mut script = vec![];
+            for k in 0..a.len().max(b.len()) {
+                if k < a.len() {
+                    script.push((0, a[k].clone()));
+                }
+                if k < b.len() {
+                    script.push((1, b[k].clone()));
+                }
+            }
+            for (cap, budget) in [(8usize, 2usize), (4096, 64)] {
+                for fd in [false, true] {
+                    let mut c = Cfg::basic(script.clone(), 2);
+                    c.cap = cap;
+                    c.budget = budget;
+                    c.reporting = true;
+                    c.fault_drop = fd;
+                    c.mode = Mode::Eager;
+                    cfgs.push(c);
+                }
+            }
+        }
+    }
+    run_grid(ctx, GridSpec { name: "as-reporting".into(), cfgs, bound: if quick { 1 } else { 2 }, max_exec_per_cfg: if quick { 10_000 } else { 500_000 }, wall_cap_s: if quick { 22.0 } else { 900.0 } });
+}
+
 fn main() {
-    vcommon::machinery_failure("C20: engine not built yet");
+    let args: Vec<String> = std::env::args().collect();
+    if args.len() >= 3 && args[1] == "--loom-scenario" {
+        let thorough = std::env::var("VERIF_TIER").as_deref() == Ok("thorough");
+        loom_scenario(&args[2], if thorough { None } else { Some(3) });
+        println!("LOOM-EXECUTIONS {}", LOOM_EXECUTIONS.load(StdOrdering::Relaxed));
+        return;
+    }
+    let ctx = Ctx::from_env("C20");
+    set_checker(as_checker);
+    if let Some(r) = ctx.replay_request() {
+        match r["leg"].as_str().unwrap_or("") {
+            "links" => {
+                let ops: Vec<Op> = serde_json::from_value(r["detail"]["ops"].clone()).unwrap();
+                if let Err(e) = build(&ops) {
+                    println!("REPRODUCED: {}", e);
+                    ctx.violation("links", r["signature"].as_str().unwrap(), r["detail"].clone());
+                }
+            }
+            "loom" => {
+                let exe = std::env::current_exe().unwrap();
+                let o = std::process::Command::new(exe).arg("--loom-scenario").arg(r["detail"]["scenario"].as_str().unwrap()).env("VERIF_TIER", "thorough").output().unwrap();
+                if !o.status.success() {
+                    ctx.violation("loom", r["signature"].as_str().unwrap(), r["detail"].clone());
+                }
+            }
+            _ => as_replay(&ctx, r),
+        }
+        ctx.finish("model_checking", "replay");
+    }
+    links_leg(&ctx);
+    loom_leg(&ctx);
+    as_leg(&ctx);
+    ctx.assume("reporters are registered together with their lane, i.e. before the lane can be linked (as the write task does)");
+    ctx.assume("remove_lane / remove_all_links iterators are consumed completely (as the write task does)");
+    ctx.assume("loom: Arc/Weak of the reporter stay std types; only the three AtomicU64 counters are modelled; saturation at u64::MAX is outside the bound");
+    ctx.finish(
+        "model_checking",
+        "explicit-state BFS of the real Links registry with real reporters against a reference; loom over the real reporting source; deviation-bounded schedule exploration of the real agent+runtime with NodeReporting",
+    );
 }
